@@ -580,7 +580,10 @@ def check_address_refresh(ctx, P):
     okp = len(pre) == 1
     if okp:
         fs = pred.facts_at(fn, pre[0].bb)
-        okp = ("bool", "v:data_independent_addressing", True) in fs and pred.A("eq", 0, **{"v:position.slice": 1}) in fs and pred.A("eq", 0, **{"v:position.pass": 1}) in fs
+        # the position tested may be the parameter or its working copy (whichever exists at that point)
+        def pos_zero(field):
+            return any(pred.A("eq", 0, **{nm_ % field: 1}) in fs for nm_ in ("v:position.%s", "arg2.%s", "Clone::clone(arg2).%s"))
+        okp = ("bool", "v:data_independent_addressing", True) in fs and pos_zero("slice") and pos_zero("pass")
         # and the same guard sets starting_index = 2
     ctx.check(okp, "address", "refresh:first-segment", "when the segment starts at index 2 (pass 0, slice 0) the first address block is generated before the loop", "fill_segment does not generate the first address block for the first segment (indices 2..127 would read an all-zero address block)", where=fn.where(), key="address:refresh-first")
     # the entry consumed is address_block[i % 128]
